@@ -18,8 +18,9 @@ Clauses (the words of C17):
   them Canceled and none another error                                               (canceled)
 * `quiesce` with the call pending and ≥ 2 entries: the context is not cancelled, no error ≠ Canceled
   has been returned and some function is still running                               (canceled first / progress)
-* `probe` after the return sees a cancelled context; at quiescence after the return no function is
-  still waiting for the context                                                      (ctx cancelled after return)
+* `probe` (a look at the context handed to an entered function, whether or not the function is
+  still running) after the return sees a cancelled context; at quiescence after the return no
+  function is still waiting for the context                                                    (ctx cancelled after return)
 * `ret panic` never                                                                  (no panic)
 -/
 namespace UtilModel.CCall
@@ -31,6 +32,11 @@ deriving DecidableEq, Repr, Inhabited
 
 def FS.isRealOut : FS → Bool
   | .out r => r.isReal
+  | _ => false
+
+/-- the function has been entered: it received a context -/
+def FS.wasEntered : FS → Bool
+  | .entered | .out _ => true
   | _ => false
 
 def FS.settled : FS → Bool
@@ -72,7 +78,10 @@ def monC17 : ObsMonitor Obs C17St where
     | .envCancel => some { ms with cancelled := true }
     | .probe i c =>
       match ms.tbl with
-      | some T => if T[i]? = some .entered ∧ (ms.returned → c = true) then some ms else none
+      | some T =>
+        match T[i]? with
+        | some f => if f.wasEntered = true ∧ (ms.returned → c = true) then some ms else none
+        | none => none
       | none => none
     | .ret r =>
       match ms.tbl with
